@@ -352,7 +352,7 @@ func (c cone) params() map[string]any {
 // by a ball of radius topHeight (outer radius 2·radius, outer half height
 // bodyHeight+topHeight).
 type rcyl struct {
-	pos                  v3
+	pos               v3
 	rad, top, bodyHei float64
 }
 
